@@ -617,10 +617,7 @@ impl Family for PageFamily {
     }
     fn props(&self) -> Vec<PropSpec> {
         vec![PropSpec {
-            id: "C20",
-            quick_cases: 16_000,
-            thorough_cases: 30_000,
-            floor: 2300,
+            id: "C20", quick_cases: 40000, thorough_cases: 30_000, floor: 5750,
             rule: "case = one of 16 listings (cw20 AllAccounts/AllAllowances/AllSpenderAllowances, subkeys AllAllowances/AllPermissions, cw3-fixed and cw3-flex ListProposals/ReverseProposals/ListVotes/ListVoters, cw4-group and cw4-stake ListMembers, ics20 ListAllowed), n candidates from {0,1,9,10,11,29,30,31,32..70 (thorough ..130)}, up to 3 runs of key-adjacent candidates deleted/left out/expired (run length 1..69), limit from {absent,0,1,2,3,7,10,29,30,31,100,u32::MAX,1..44,any}, a mid-list cursor and a second limit; state built by real calls, walked from no cursor until an empty page, compared with the model key set and the point queries; reference walk with limit 30; second walk from the mid cursor must be the exact suffix. Non-trivial: >= 11 current items and effective page size < number of items (>= 2 pages); cases_with_flag gt30_<listing> shows each listing walked with more than 30 items.",
             assumptions: ASSUME,
         }]
